@@ -7,6 +7,7 @@ package unpackinfo
 
 //@ func NewUnpackInfo -> (info, err)
 //@   sweep
+//@   pure
 //@   replay unpackEntry: dst=dst, name=header.Name, typeflag=header.Typeflag
 //@   guide g1: isPlainAbs(dst) && len(dst) <= 4 && isSeg(header.Name[3:]) && hasPrefix(header.Name, "../") && len(header.Name) <= 8 && header.Typeflag == 48
 //@   guide g2: isPlainAbs(dst) && len(dst) <= 4 && isPlainRel(header.Name) && len(header.Name) <= 8 && header.Typeflag == 48
@@ -23,3 +24,8 @@ package unpackinfo
 //@   ensures C01,C15.typegate: err == nil ==> header.Typeflag == tar.TypeDir || header.Typeflag == tar.TypeSymlink
 //@       || header.Typeflag == tar.TypeReg || header.Typeflag == tar.TypeRegA || header.Typeflag == tar.TypeXHeader || header.Typeflag == tar.TypeXGlobalHeader
 //@   ensures C15.fields: err == nil ==> info.Typeflag == header.Typeflag && info.OriginalModTime == header.ModTime && info.OriginalAccessTime == header.AccessTime
+
+//@ func (UnpackInfo).RestoreInfo -> (err)
+//@   pure
+//@   fswrite i.Path
+//@   frame C01.frame: _p == i.Path
